@@ -110,38 +110,33 @@ func SignJSON(signingName string, keyID KeyID, privateKey ed25519.PrivateKey, me
 // Such a message could be altered, or read differently by the next reader, without invalidating its
 // signatures. The check covers the whole message: a second "signatures" or "unsigned" member is as
 // ambiguous as any other, and CanonicalJSON rewrites the inside of "unsigned" as well.
+//
+// The message comes from another server. json.Valid goes first: it is linear in the length of the
+// message, does not recurse, and refuses what is nested deeper than encoding/json reads (10000 levels), so
+// that nothing below - gjson.ValidBytes recurses, the walk keeps one entry per open object - is exposed to
+// nesting that deep.
 func checkStrictJSON(message []byte, requireUTF8 bool) error {
-	if !gjson.ValidBytes(message) {
+	if !json.Valid(message) || !gjson.ValidBytes(message) {
 		return fmt.Errorf("gomatrixserverlib: invalid JSON")
 	}
-	return checkStrictValue(gjson.ParseBytes(message), requireUTF8)
-}
-
-func checkStrictValue(value gjson.Result, requireUTF8 bool) (err error) {
-	switch {
-	case value.Type == gjson.String:
-		return checkStrictString(value.Raw, requireUTF8)
-	case value.IsObject():
-		names := make(map[string]struct{})
-		value.ForEach(func(name, member gjson.Result) bool {
-			if err = checkStrictString(name.Raw, requireUTF8); err != nil {
-				return false
+	walk := jsonWalk{
+		// the name as gjson reads it
+		decodeName: func(raw []byte, escaped bool) (string, bool) {
+			if !escaped {
+				return string(raw[1 : len(raw)-1]), true
 			}
-			if _, duplicate := names[name.Str]; duplicate {
-				err = fmt.Errorf("gomatrixserverlib: duplicate object member %q", name.Str)
-				return false
-			}
-			names[name.Str] = struct{}{}
-			err = checkStrictValue(member, requireUTF8)
-			return err == nil
-		})
-	case value.IsArray():
-		value.ForEach(func(_, element gjson.Result) bool {
-			err = checkStrictValue(element, requireUTF8)
-			return err == nil
-		})
+			return gjson.ParseBytes(raw).Str, true
+		},
+		checkString: func(raw []byte) error { return checkStrictString(string(raw), requireUTF8) },
 	}
-	return err
+	name, duplicate, err := walk.duplicateName(message)
+	if err != nil {
+		return err
+	}
+	if duplicate {
+		return fmt.Errorf("gomatrixserverlib: duplicate object member %q", name)
+	}
+	return nil
 }
 
 // checkStrictString checks a JSON string in its raw (quoted, escaped) spelling, which gjson has
